@@ -338,12 +338,14 @@ func rewriteFile(path, rel string) ([]byte, bool, error) {
 					key := id.Name + "." + se.Sel.Name
 					if pkgImported[id.Name] {
 						switch key {
-						case "context.WithCancel", "context.WithTimeout", "context.WithDeadline", "time.Sleep", "time.After", "time.NewTimer", "time.AfterFunc":
+						case "context.WithCancel", "context.WithTimeout", "context.WithDeadline", "time.Sleep", "time.After", "time.NewTimer", "time.AfterFunc", "time.NewTicker", "time.Tick":
 							b.Fun = sel("vrt", se.Sel.Name)
 							rw.needVrt, rw.changed = true, true
 							rep.Rewrites[key]++
-						case "time.NewTicker", "time.Tick", "context.AfterFunc":
-							rw.unmodelled(b.Pos(), key+" (real-time timer, not under the scheduler)")
+						case "context.AfterFunc":
+							b.Fun = sel("vrt", "CtxAfterFunc")
+							rw.needVrt, rw.changed = true, true
+							rep.Rewrites[key]++
 						}
 					}
 				}
@@ -430,6 +432,19 @@ func rewriteFile(path, rel string) ([]byte, bool, error) {
 		}
 		return true
 	})
+	// the types of the virtual timers: time.Timer / time.Ticker -> vrt.Timer / vrt.Ticker
+	if pkgImported["time"] {
+		ast.Inspect(f, func(n ast.Node) bool {
+			if se, ok := n.(*ast.SelectorExpr); ok {
+				if id, ok := se.X.(*ast.Ident); ok && id.Name == "time" && id.Obj == nil && (se.Sel.Name == "Timer" || se.Sel.Name == "Ticker") {
+					se.X = ast.NewIdent("vrt")
+					rw.needVrt, rw.changed = true, true
+					rep.Rewrites["time."+se.Sel.Name+" type"]++
+				}
+			}
+			return true
+		})
+	}
 	// channels made by the code under test are registered with the scheduler
 	// (vrt.MakeChan(make(chan T, n))): nothing outside the task world operates on them
 	wrapped := map[*ast.CallExpr]bool{}
@@ -454,6 +469,27 @@ func rewriteFile(path, rel string) ([]byte, bool, error) {
 		rep.Rewrites["make(chan)"]++
 		return true
 	})
+	// an import whose every use was redirected must not become "imported and not used"
+	if rw.changed {
+		for pkg, keep := range map[string]string{"time": "Duration", "context": "Context"} {
+			if !pkgImported[pkg] {
+				continue
+			}
+			used := false
+			ast.Inspect(f, func(n ast.Node) bool {
+				if se, ok := n.(*ast.SelectorExpr); ok {
+					if id, ok := se.X.(*ast.Ident); ok && id.Name == pkg && id.Obj == nil {
+						used = true
+					}
+				}
+				return !used
+			})
+			if !used {
+				f.Decls = append(f.Decls, &ast.GenDecl{Tok: token.VAR, Specs: []ast.Spec{&ast.ValueSpec{
+					Names: []*ast.Ident{ast.NewIdent("_")}, Type: sel(pkg, keep)}}})
+			}
+		}
+	}
 	if !rw.changed {
 		return nil, false, nil
 	}
